@@ -142,10 +142,65 @@ CLAIMS = {
         "note": NOTE_COMMON,
         "technique": "canonical-term matching of the loop body; ordering evaluation of stop conditions; symbolic bound recognition with grid-witness search on the extracted bound formula",
     },
+    "C10": {
+        "text": "Static decision of the structural clauses of the crowsetta converters: dimension analysis (seconds / time-expansion exponents) "
+                "of every imported coordinate on every (adjust flag, factor, seconds-or-samples) path; export fields from the bounds "
+                "positions with floor sample indices and Nyquist cap; cast/raise switches by truth table; error policy (skip iff "
+                "ignore_errors, else re-raise, append outside the handler); one output per input in order; label cascades decided per "
+                "option scenario incl. 'explicit option survives a lookup miss'. Exact float reproduction is trusted from pass-through.",
+        "design_ref": "DESIGN.md section 3, C10 (R10.1-R10.6)",
+        "note": NOTE_COMMON,
+        "technique": "dimension (unit-exponent) abstract domain over gated-SSA terms; truth tables of extracted guards; scenario-wise partial evaluation of option cascades",
+    },
+    "C15": {
+        "text": "Static decision of the structural clauses behind sample accuracy: offset/length by floor with the recording's samplerate, "
+                "file read at that offset (seek before read, zero fill, 2-D), clip axis rebuilt from the snapped offset; every advertised "
+                "step attribute is computed from the quantities that generate the coordinates (spectrogram frequency/time steps over the "
+                "truncated sample counts given to stft, resample step 1/target); spectrogram origin = source's first time. Frame-exact "
+                "content, monotonicity and axis length depend on soundfile/scipy/np.arange and are not decided.",
+        "design_ref": "DESIGN.md section 3, C15 (R15.1-R15.4)",
+        "note": NOTE_COMMON,
+        "technique": "step-provenance sibling rule: canonical-term equality between the advertised step and the generator's arguments; evaluation-order rule for seek/read",
+    },
+    "C16": {
+        "text": "Static decision of: recorded step == generating step (size => (stop-start)/size), trailing-element trim present, wrappers forward "
+                "start/stop/step; get_coord_index decided on all orderings of value vs [start, stop] x raise flag; set_value_at_pos addresses "
+                "each query dimension's own axis with its own index and stores once. Exact np.arange values/counts are not decided.",
+        "design_ref": "DESIGN.md section 3, C16 (R16.1-R16.3)",
+        "note": NOTE_COMMON,
+        "technique": "keyword-pairing and canonical-term matching; ordering evaluation of the extracted lookup outcomes",
+    },
+    "C17": {
+        "text": "Static decision of: count-exact coordinate generation in extend_dim_width (integer-count generators only; float np.arange with "
+                "computed stop is the defined bad pattern); eps signs and None handling of the closedness flags; exact range guards; width "
+                "dispatch and forwarding; width-based crop slices and placement / lattice continuation evaluated on the extracted generator "
+                "formulas for small dyadic instances (finite-instance argument, labelled). Float label matching in sel/reindex is not decided.",
+        "design_ref": "DESIGN.md section 3, C17 (R17.1-R17.6)",
+        "note": NOTE_COMMON,
+        "technique": "integer-valuedness typing of generator arguments; flag-wise partial evaluation; finite-instance evaluation of extracted coordinate formulas",
+    },
+    "C19": {
+        "text": "Static decision of: encoder table key == lookup key == whole tag identity (every declared Tag field), 0-based enumerate, decode, "
+                "num_classes; first-hit / indicator / score-fill shapes with the only stores at vocabulary indices; and, as a sufficient "
+                "condition that proves the hash/eq clause given pydantic's field-wise __eq__, every hand-written __hash__ is hash() over "
+                "declared, hash-consistent fields with no __eq__ override.",
+        "design_ref": "DESIGN.md section 3, C19 (R19.1-R19.3)",
+        "note": NOTE_COMMON,
+        "technique": "key-expression equality and field-coverage over pydantic field tables; purity check of __hash__ bodies",
+    },
+    "C20": {
+        "text": "Static decision of the structural clauses of rasterize: shape provenance (named dimensions, rows = ydim / cols = xdim, vs the "
+                "template's positional shape); output labelling (xdim, ydim) with matching transpose and template coordinates; value broadcast "
+                "and length guard; x through the xdim axis and y through the ydim axis, clamped; shapes in input order; fill/dtype/all_touched "
+                "forwarded. Which cells rasterio marks is trusted / not decided.",
+        "design_ref": "DESIGN.md section 3, C20 (R20.1-R20.5)",
+        "note": NOTE_COMMON,
+        "technique": "provenance classification of the shape argument; call-binder pairing of dimension names inside the nested transform",
+    },
 }
 
 _DONE = set(CLAIMS)
 NOT_APPLICABLE = {f"C{i:02d}": "checker under construction in this session (static rules designed in DESIGN.md section 3); "
                                "not yet claimed" for i in range(1, 21) if f"C{i:02d}" not in _DONE}
 
-FIX_COMMITS = ["c835c87 (C01 licence)", "7a83dd0 (C01 prediction-set sequences)", "531fadf (C02 evaluation tags)", "6fda367 (C04 Evaluation.score bounds)", "a327a28 (C06 clamp)", "9c74d6e (C07 zero-affinity pairs)", "e394000 (C08 index/coverage)", "40e4031 (C08 affinity)", "2b5a48a (C09 terms)", "8a7afcb (C09 empty clip)", "23238c7 (C14 loop bound)"]
+FIX_COMMITS = ["c835c87 (C01 licence)", "7a83dd0 (C01 prediction-set sequences)", "531fadf (C02 evaluation tags)", "6fda367 (C04 Evaluation.score bounds)", "a327a28 (C06 clamp)", "9c74d6e (C07 zero-affinity pairs)", "e394000 (C08 index/coverage)", "40e4031 (C08 affinity)", "2b5a48a (C09 terms)", "8a7afcb (C09 empty clip)", "23238c7 (C14 loop bound)", "570b833 (C20 raster shape)", "a350963 (C17 exact count)", "edb718b (C15 spectrogram step)", "cf80b75 (C10 explicit key)"]
